@@ -9,6 +9,7 @@ R5 remap_id arithmetic and effective-mapping selection
 R4 (cont.) mount_with_id_mapping stores the caller's mapping itself; every modified table copy is published
 R4-arc-forward/R5-arc-override (shared with C02) Arc<FS> forwards id_remap and id_remap_with_nodeid
 R2-state-roundtrip (shared with C19.R2) per-mount mappings survive save/restore slot by slot
+R4 (cont.) restore_mount does not write the mapping table
 """
 import re
 from pyfbr import core, vf
